@@ -16,9 +16,9 @@ type zzCurve struct {
 	err error
 }
 
-func (c *zzCurve) GetId() string            { return c.id }
-func (c *zzCurve) Evaluate() (int, error)   { return c.v, c.err }
-func (c *zzCurve) CurrentValue() int        { return c.v }
+func (c *zzCurve) GetId() string          { return c.id }
+func (c *zzCurve) Evaluate() (int, error) { return c.v, c.err }
+func (c *zzCurve) CurrentValue() int      { return c.v }
 
 // zzSpyFan records every SetPwm / SetPwmEnabled argument and forwards to the real fan.
 type zzSpyFan struct {
@@ -60,7 +60,8 @@ type zzEnv struct {
 func zzIntPtr(v int) *int { return &v }
 
 // zzNewFan builds a real fan of the given kind over fake device files.
-//   hasPwm/hasEnable/hasRpm: which device files exist (feature flags of the fan)
+//
+//	hasPwm/hasEnable/hasRpm: which device files exist (feature flags of the fan)
 func zzNewFan(kind int, neverStop bool, hasPwm, hasEnable, hasRpm bool, pwm, enable, rpm int) *zzEnv {
 	e := &zzEnv{kind: kind}
 	e.dir = zzv.TempDir("fan")
@@ -206,4 +207,3 @@ func zzNKeys() int {
 	}
 	return 2
 }
-
